@@ -234,10 +234,12 @@ CHECKS = {
                 "Kleene with separator) reads back exactly what the SignatureIDL printers write, whatever may follow a "
                 "type (parse_print, by mutual induction, any sufficient depth); for every signature type of C09's grammar "
                 "whose structs are in scope the type read back stands for the identical signature (signature_survives); "
-                "the repeated keywords are unreachable; the hypotheses are witnessed; tied by the regenerated keyword list, "
+                "an action line (fn / sig / prop, name, named and typed parameters with either separator, returned type, //uid: "
+                "comment) is read back as the same action (action_ok) and the actions of an interface block are stored under "
+                "their uids (interface_roundtrip); the repeated keywords are unreachable; the hypotheses are witnessed; tied by the regenerated keyword list, "
                 "alternative order, composite shapes, identifier patterns and printer formats, and by differential runs "
                 "of types, whole meta-objects and fuzzed text through the real parser",
-        "note": "partial: the fn / sig / prop lines, //uid: comments, struct blocks and scope resolution are validated by the round-trip "
+        "note": "partial: struct blocks, the package header and scope resolution are validated by the round-trip "
                 "oracle on generated meta-objects, not proved; parser totality is sampled",
         "technique": "Lean 4 proof (print/parse round trip of the IDL type grammar by mutual induction) + regenerated tie lemmas + differential and round-trip runs, fuzzing in child processes",
     },
